@@ -626,7 +626,7 @@ pub fn get_value(
 
             if pos < 0 {
                 let string_length = string.chars().count() as i32;
-                pos = string_length - pos.abs() + 1;
+                pos = string_length.saturating_sub_unsigned(pos.unsigned_abs()).saturating_add(1);
             }
 
             let len = match &function_args.get(1) {
